@@ -251,7 +251,7 @@ func (c C06Gen) Text() string {
 	return b.String()
 }
 
-var c06Parts = []string{"@{bin}/", "@{lib}/", "@{lib}/@{multiarch}/", "/opt/", "/usr/share/", "@{bin}/foo", "bar", "{a,b}", "{,x/}y", "foo-@{version}", "@{arch}", "/", "qt@{int}", "*", "@{user_share_dirs}/", "@{HOME}/.local/", "[0-9]", "@{sbin}/"}
+var c06Parts = []string{"@{bin}/", "@{lib}/", "@{lib}/@{multiarch}/", "/opt/", "/usr/share/", "@{bin}/foo", "bar", "{a,b}", "{,x/}y", "foo-@{version}", "@{arch}", "/", "qt@{int}", "*", "@{user_share_dirs}/", "@{HOME}/.local/", "[0-9]", "@{sbin}/", "ding@rastersoft.com/", "g++", "a=b"}
 
 func genC06Value(t *rapid.T, local []string) string {
 	n := rapid.IntRange(1, 4).Draw(t, "nparts")
